@@ -136,6 +136,7 @@ class Model:
         self.root = root
         self.top = top_name
         self.devmap = devmap
+        self.trailing = set()     # compressed Manifests with bytes after their first complete stream
 
     def _p(self, rel):
         return os.path.join(self.root, rel) if rel else self.root
@@ -146,9 +147,15 @@ class Model:
             raw = f.read()
         try:
             text = G.decompress(raw, G.comp_of(rel)).decode('utf8')
+            # text files are read with universal newlines: a lone CR ends a line too
+            text = text.replace('\r\n', '\n').replace('\r', '\n')
             text, signed = G.strip_signature(text)
             return G.parse(text), raw
         except Exception:
+            if G.comp_of(rel) in ('bz2', 'lzma', 'xz') and G.lenient_decompresses(raw, G.comp_of(rel)):
+                # one complete stream followed by other bytes: the stdlib file readers ignore the tail, the strict
+                # reading does not; whether such a file "is" the Manifest it starts with is nobody's statement
+                self.trailing.add(rel)
             return None, raw
 
     def load_chain(self, subpath, v, recursive=True):
@@ -318,6 +325,13 @@ class Model:
         return files
 
     def verdict(self, subpath='', last_mtime=None):
+        v = self._verdict(subpath, last_mtime)
+        if self.trailing:
+            v.zones.append('compressed-manifest-with-trailing-data')
+            v.kind = 'DONTCARE'
+        return v
+
+    def _verdict(self, subpath='', last_mtime=None):
         v = Verdict()
         v.loop = False
         loaded = self.load_chain(subpath, v)
